@@ -133,8 +133,24 @@ func verifSpecResultQ(c *Context, neg bool, N, D *BigInt, e int64, d *Decimal, r
 	val, flg, fit = true, true, true
 
 	if res&(SystemOverflow|SystemUnderflow) != 0 {
-		// Value is unspecified when a system limit was hit (an error is returned);
-		// whether the limit may be hit at all is asserted by the caller.
+		// Value is unspecified when a system limit was hit (an error is returned). A system
+		// condition is legitimate only at the package limits: the exact value's exponent or
+		// adjusted exponent (possibly after a rounding carry) is outside +-100000.
+		if N.Sign() == 0 {
+			flg = verifOr(e > MaxExponent, e < MinExponent)
+			return
+		}
+		ndN := verifNumDigits(N)
+		hiAdj := e + ndN // upper bound of the adjusted exponent incl. a carry (D >= 1)
+		loAdj := e - 1
+		if D != bigOne {
+			loAdj = e + ndN - verifNumDigits(D) - 1
+		}
+		if res&SystemOverflow != 0 {
+			flg = hiAdj > MaxExponent
+		} else {
+			flg = verifOr(loAdj < MinExponent, e < MinExponent)
+		}
 		return
 	}
 	noBad := res&^(Overflow|Underflow|Inexact|Subnormal|Rounded|Clamped) == 0
